@@ -1142,6 +1142,14 @@ class Ctx:
             return True
         return abs(a - b) <= self.atol + self.rtol * max(abs(a), abs(b))
 
+    def eq_value(self, a, b):
+        """equality of the real values, ignoring the NaN flags (use under a not-NaN hypothesis)"""
+        if self.mode == "sym":
+            if _is_nan_float(a) or _is_nan_float(b):
+                return _is_nan_float(a) and _is_nan_float(b)
+            return SB(zt(a) == zt(b))
+        return self.eq(a, b)
+
     def le(self, a, b):
         """a <= b (conc: with tolerance)"""
         if self.mode == "sym":
@@ -1292,6 +1300,8 @@ class Ctx:
             rn, rd = math.isqrt(n), math.isqrt(d)
             if rn * rn == n and rd * rd == d:
                 return SR(Fraction(rn, rd), x.n)
+            if self.fold_sqrt:
+                return SR(Fraction(math.sqrt(float(x.v))), x.n)
         # one atom per argument *value*: arguments that normalise to the same term share the atom
         xs = None if isinstance(x.v, Fraction) else z3.simplify(x.v, som=True)
         key = ("sqrt", x.v if isinstance(x.v, Fraction) else xs.get_id())
@@ -1305,9 +1315,17 @@ class Ctx:
         nan = _or(x.n, None if isinstance(x.v, Fraction) else term(x.v) < 0)
         return SR(s, nan)
 
+    _FOLD = {"exp": math.exp, "log": math.log, "tanh": math.tanh, "sinh": math.sinh, "cosh": math.cosh}
+
     def _uf1(self, name, x, axioms):
         if _is_nan_float(x):
             return float("nan")
+        if isinstance(x.v, Fraction) and name in self._FOLD:
+            # a transcendental function of a constant: the double that libm returns, as an exact rational
+            try:
+                return SR(Fraction(self._FOLD[name](float(x.v))), x.n)
+            except (ValueError, OverflowError):
+                return SR(Fraction(0), z3.BoolVal(True))
         xe = term(x.v)
         t = UF[name](xe)
         key = (name, x.v if isinstance(x.v, Fraction) else x.v.get_id())
@@ -1349,6 +1367,7 @@ class Ctx:
         s = self._uf1("sin", x, lambda t, xe: [t >= -1, t <= 1, t * t + UF["cos"](xe) * UF["cos"](xe) == 1])
         return s
 
+    fold_sqrt = False  # sqrt of a non-square constant: double value instead of an exact algebraic atom
     uf_unit_axioms = False  # add x/1==x, 1*x==x, 0*x==0 instances for the abstracted non-linear operators
     concretise_mods = False  # umod: replace the wrap count by a constant when the path condition determines it
     trig_axioms = True  # False: cos/sin of symbolic angles are plain uninterpreted functions (congruence only)
